@@ -22,8 +22,14 @@ KEYS = ['a', 'b', 'c', 'm', '_r', 0, 1]
 ARGK = ['x', 'y', 'z']
 
 
-def _req(draw):
+def _req(draw, counter=None):
+    # yaml anchors / aliases: one placeholder node object reachable at several positions (each position is its own slot)
+    if counter is not None and counter[1] and draw(st.integers(0, 2)) == 0:
+        return {'t': 'alias', 'name': f'r{draw(st.integers(1, counter[1]))}'}
     n = {'t': 'empty', 'tag': '!required'}
+    if counter is not None and draw(st.integers(0, 2)) == 0:
+        counter[1] += 1
+        n['anchor'] = f'r{counter[1]}'
     if draw(st.integers(0, 3)) == 0:
         n['md'] = {'why': 'needed'}
         n['mdstyle'] = draw(st.sampled_from(['braces', 'hex']))
@@ -44,7 +50,7 @@ def _tree(draw, counter, depth=0):
 def _value(draw, counter, depth):
     c = draw(st.integers(-1, 9))
     if c <= 1:
-        return _req(draw)
+        return _req(draw, counter)
     if c == 2 and depth < 3:
         return draw(_tree(counter, depth + 1))
     if c == 3 and depth < 3:
@@ -63,7 +69,7 @@ def _is_fn(n):
 
 
 def _is_req(n):
-    return n.get('tag') == '!required'
+    return n.get('tag') == '!required' or n['t'] == 'alias'
 
 
 @st.composite
@@ -109,7 +115,7 @@ def fold(a, b):
     """AST-level merge of a plain newer node b onto older node a. Returns AST or 'REMOVE'."""
     if b['t'] == 'empty' and b.get('del') is True:
         return 'REMOVE'
-    if b['t'] in ('sc', 'empty'):
+    if b['t'] in ('sc', 'empty', 'alias'):
         return b
     if b['t'] == 'seq':
         if _is_fn(a):
@@ -160,7 +166,7 @@ def path_str(path):
 
 @st.composite
 def _case(draw):
-    counter = [0]
+    counter = [0, 0]
     base = draw(_tree(counter))
     stages = [base]
     cur = base
@@ -185,6 +191,8 @@ def run_case(case):
     surv = required_paths(cur)
     all_paths_ever = set(initial)
     labels = {f'stages={len(stages)}', 'placeholders=%d' % min(len(initial), 4), 'survivors=%d' % min(len(surv), 4)}
+    if any(n['t'] == 'alias' for _, n in tdoc.walk(stages[0])):
+        labels.add('aliased-placeholder')
     in_special = False
     for p in initial:
         n = stages[0]
